@@ -8,7 +8,7 @@
    partial). *)
 From Coq Require Import List Arith ZArith Bool Lia.
 Import ListNotations.
-From GG Require Import Text Json Text_proofs Sdl Sdl_proofs Json_proofs Json_value Tokens_proofs.
+From GG Require Import Text Json Text_proofs Sdl Sdl_proofs Json_proofs Json_value Tokens_proofs Values_scalar.
 
 (* names (symbols, variable names, unquoted keys) are exactly the non-empty words over [A-Za-z0-9_];
    number tokens are words over [0-9+-.eE]; the string delimiters and NUL are in no class; comma is
@@ -119,6 +119,46 @@ Proof.
   - split; [repeat constructor|reflexivity].
   - eexists. vm_compute. reflexivity.
 Qed.
+
+(* The SDL round trip of every scalar through ggql's value reader (readValue), names and number tokens
+   of any length, at any nesting-depth counter and scanner position: $name reads back as the variable;
+   a name reads back as the enum symbol - or as true / false / null when it is that keyword; a number
+   token starting with '-' or a digit, followed by a byte that may follow a value, reads back as the
+   integer it denotes when it fits int64 and otherwise as the float token Go accepts. *)
+Theorem C18_variable_round_trip :
+  forall float_ok (w : list byte) s b0 k fuel d,
+    w <> [] -> Forall (fun b => is_token b = true) w -> is_token b0 = false -> b0 <> 0 ->
+    ready s (36 :: w ++ b0 :: k) -> length w + 1 < fuel ->
+    exists s', read_value float_ok fuel d s = ROk (PVar w) s' /\ ready s' (b0 :: k).
+Proof. exact read_value_variable_written. Qed.
+Print Assumptions C18_variable_round_trip.
+
+Theorem C18_name_round_trip :
+  forall float_ok (a : byte) (w : list byte) s b0 k fuel d,
+    name_start a = true -> Forall (fun b => is_token b = true) w -> is_token b0 = false -> b0 <> 0 ->
+    ready s ((a :: w) ++ b0 :: k) -> length w + 1 < fuel ->
+    exists s', read_value float_ok fuel d s = ROk (keyword_value (a :: w)) s' /\ ready s' (b0 :: k).
+Proof. exact read_value_name_written. Qed.
+Print Assumptions C18_name_round_trip.
+
+Theorem C18_number_round_trip :
+  forall float_ok (a : byte) (w : list byte) s b0 k fuel d v,
+    (Nat.eqb a 45 || digit a) = true -> Forall (fun b => is_num b = true) (a :: w) ->
+    value_follow b0 = true -> b0 <> 0 -> number_value float_ok (a :: w) = Some v ->
+    ready s ((a :: w) ++ b0 :: k) -> length w + 1 < fuel ->
+    exists s', read_value float_ok fuel d s = ROk v s' /\ ready s' (b0 :: k).
+Proof. exact read_value_number_written. Qed.
+Print Assumptions C18_number_round_trip.
+
+Example C18_scalar_round_trip_instances :
+  (* RED_1] is the symbol, null, is null, -12] is the integer: the theorems' conclusions computed *)
+  let s0 l := mkP l false 0 false 0 0 in
+  name_start 82 = true /\ name_start 110 = true /\ value_follow 93 = true /\
+  keyword_value [82; 69; 68; 95; 49] = PSym [82; 69; 68; 95; 49] /\ keyword_value [110; 117; 108; 108] = PNull /\
+  number_value (fun _ => false) [45; 49; 50] = Some (PInt (-12)) /\
+  (exists s', read_value (fun _ => false) 8 3 (s0 [82; 69; 68; 95; 49; 93]) = ROk (PSym [82; 69; 68; 95; 49]) s') /\
+  (exists s', read_value (fun _ => false) 8 0 (s0 [45; 49; 50; 93]) = ROk (PInt (-12)) s').
+Proof. cbv zeta. repeat split; try (vm_compute; reflexivity); eexists; vm_compute; reflexivity. Qed.
 
 (* The same constant is read back rune for rune by ggql's own reader (proved for C15). *)
 Theorem C18_string_constant_round_trip :
